@@ -14,7 +14,7 @@ CLAIMED = {
                 note='Trusts openpyxl to write the edited workbook faithfully (a read-back self-check discards runs whose planted constants do not survive the xlsx round trip), the re-translation path itself (functional defects shared by both paths cancel out by design), and the generator bounds (<=3 sheets, <=48 cells, <=30 operations). The three defects this check found on the original tree (hash-order-dependent survivor of two writes, overridden formula still evaluated, whole-column references blind to rows appended by set_cells) were repaired in 10b93f2, 52e7894 and bc17b30; their minimised plans are replayed on every run (regress/). No finding is currently recorded for this property.'),
     'C08': dict(engine='execsim', design='4.2',
                 technique='deterministic simulation: seeded query histories over fixed overrides, every response compared with an isolated single query on a pristine executor in a foreign process',
-                text='Overrides are established one write per cell - all at once or, on half of the runs, in up to three epochs separated by query bursts - and 6-80 queries are issued from 1-3 logical clients through get_cell/get_cells/get_sheet with every addressing spelling, repeated and permuted, with evaluation failures in the middle and (on some runs) a simulated clock step between two bursts; each response must equal the value of one get_cell on a pristine executor given the overrides in force in one batch (other process, other hash seed, same instant), get_sheet must have exactly the spec-derived shape, and sizes must be unchanged afterwards.',
+                text='Overrides are established one write per cell - all at once or, on half of the runs, in up to three epochs separated by query bursts - and 6-80 queries are issued from 1-3 logical clients through get_cell/get_cells/get_sheet with every addressing spelling, repeated and permuted, with Cell objects the caller re-uses, re-aims and lists twice, on some runs from real threads that take turns strictly one at a time, with evaluation failures in the middle and (on some runs) a simulated clock step between two bursts; each response must equal the value of one get_cell on a pristine executor over a brand-new class given the overrides in force in one batch (other process, other hash seed, same instant), get_sheet must have exactly the spec-derived shape, and sizes must be unchanged afterwards.',
                 note='Exploration over sampled histories within the generator bounds (<=3 sheets, <=48 cells, dependency chains of a handful of cells: a defect that needs a chain of hundreds of cells, e.g. one that involves the recursion limit of the interpreter, is out of reach). The isolated reference uses the same generated source text (C09 decides that the text itself is stable). Grid shape is derived from the workbook spec, so the check assumes the reader reports the used range of a dense-origin workbook correctly (C18, not claimed).'),
     'C06': dict(engine='loadsim', design='4.6',
                 technique='deterministic simulation: seeded write/load/clock-jump/chdir/relink histories over real files re-stamped from a simulated clock (granularity 1ns..2s), file-loaded executor compared with the class object of the returned text',
@@ -27,11 +27,11 @@ CLAIMED = {
     'C15': dict(engine='clocksim', design='4.5',
                 technique='deterministic simulation: TODAY() dashboard driven through seeded clock jumps (forward/backward), zone and DST changes under an LD_PRELOAD clock shim; responses checked against independent calendar arithmetic on the simulated instant',
                 text='Decides the clock-reachable part of C15: TODAY is the simulated local date at midnight in every zone/DST state, is not folded at translation or cached at construction, and YEAR/MONTH/DAY/DATE/EDATE/EOMONTH/DATEDIF(D,M,Y,YM)/NETWORKDAYS/IF computed from it follow the statement\'s definitions as simulated time passes (1971-2099), for both the generated class and a subclass of the importable base class.',
-                note='The rest of the quantifier of C15 (all (y,m,d) triples in a wide box, all offsets -60..60, all holiday subsets) is an input sweep and is NOT claimed: a defect for dates not reachable from the dashboard goes unseen. Local time is evaluated by an independent POSIX-TZ evaluator cross-checked against libc for the same explicit instant.'),
+                note='The rest of the quantifier of C15 (all (y,m,d) triples in a wide box, all offsets -60..60, all holiday subsets) is an input sweep and is NOT claimed: a defect for dates not reachable from the dashboard goes unseen. Local time is evaluated by an independent POSIX-TZ evaluator cross-checked against libc for the same explicit instant. One deliberate relaxation: for DATEDIF M/Y/YM, when the start day does not exist in the end month and the end is that month\'s last day (31 Jan -> 28 Feb), both the day-of-month count and the clamping count are accepted, because the statement does not choose between them (DESIGN.md 4.5, 9.4).'),
     'C09': dict(engine='parsersim', design='4.3',
                 technique='deterministic simulation: facade histories of 1-3 client threads under a seeded baton scheduler (sys.settrace line/opcode pre-emption), simulated disk with injected I/O faults, every response compared with a fresh Parser in a pristine foreign process',
                 text='1-3 client threads, each with its own real Parser, share the process-global token tables (uninitialised at the start of every run: fork-per-run from a lane that never parsed) and one simulated disk; each client issues 3-12 facade calls (set path, set / replace / re-pass / clear the entry cell, enable / disable safety, get, write, replace a workbook on disk); the schedule is sequential, operation-level or line-level pre-emption (quanta from 1 event to PCT-style rare switches) drawn from the run\'s PRNG; workbooks come from a seeded corpus that covers every translator; 0-2 I/O faults (open failure, ENOSPC/EIO mid-write, error at close, EIO mid-read) and raw read/write caps are injected. Every get must equal, and every write that returns must leave exactly, the text a brand-new Parser produces for the settings in force — computed in another process with another hash seed, cwd and simulated date. Exploration: schedules, histories and fault placements are sampled, not enumerated.',
-                note='Pre-emption granularity is a source line (an opcode in the token-table files on some runs) of excel2pycl/*; code inside openpyxl/dateutil is not pre-empted (it shares no state between clients). The reference runs the same library, so functional defects common to both paths cancel out. Relaxations are listed in DESIGN.md §4.3 (replaced workbook without set_path, fired read fault, workbook replacement is atomic).'),
+                note='Pre-emption granularity is a source line (an opcode in the token-table files on some runs) of excel2pycl/*; code inside openpyxl/dateutil is not pre-empted (it shares no state between clients). The reference runs the same library, so functional defects common to both paths cancel out. Relaxations are listed in DESIGN.md §4.3 (replaced workbook without set_path, fired read fault, workbook replacement is atomic). Corpus workbooks have at most ~40 cells: a defect that needs a dependency chain of a hundred cells or more (e.g. one involving the recursion limit) is out of reach.'),
 }
 
 NOT_YET = {
